@@ -212,10 +212,15 @@ def query_in_config(cfg, kind, args):
 probe_command = S.struct_probe_command
 
 
+def generic_shapes(**kw):
+    """(round 15) type parameters that need no trait (instantiated with NoDef) and parameters with defaults"""
+    return [("bound-free-parameter", it) for it in G.bound_free_items(**kw)] + [("defaulted-parameters", it) for it in G.defaulted_param_items()]
+
+
 def build_corpus(tier, rng):
     c = Corpus(ID)
     thorough = tier == "thorough"
-    cands = [("regression", it) for it in regression()] + [("systematic", it) for it in systematic(rng)] + [("non-ascii-ident", it) for it in nonascii()] + [("long-spelling", it) for it in long_spellings() if not any(m.kind == "phf" for m in it.metas)] + [("many-variants", it) for it in many_variants()] + [("declaration-order", it) for it in declaration_order() if not any(m.kind == "phf" for m in it.metas)]
+    cands = generic_shapes() + [("regression", it) for it in regression()] + [("systematic", it) for it in systematic(rng)] + [("non-ascii-ident", it) for it in nonascii()] + [("long-spelling", it) for it in long_spellings() if not any(m.kind == "phf" for m in it.metas)] + [("many-variants", it) for it in many_variants()] + [("declaration-order", it) for it in declaration_order() if not any(m.kind == "phf" for m in it.metas)]
     for _ in range(1400 if thorough else 110):
         cands.append(("random", G.string_enum(rng)))
     infos = G.classify(ID, [it for _, it in cands])
